@@ -445,6 +445,8 @@ func writeCanon(b *strings.Builder, v any, maskID bool) {
 		b.WriteString("timestamptz(" + fieldsOf(v.GoTime(), true, true, true) + ")")
 	case refDT:
 		b.WriteString(v.canon())
+	case refID:
+		b.WriteString("RAWID")
 	default:
 		fmt.Fprintf(b, "?%T(%v)", v, v)
 	}
